@@ -236,6 +236,16 @@ func encodeRequest(sc *Scenario) (*encodedRequest, error) {
 	if c.Timeout != "" {
 		add(timeoutHeaderByForm[c.Form], c.Timeout)
 	}
+	if c.Identity && c.Compression == "" && enc.Body != nil {
+		switch c.Form {
+		case FormConnectUnary, FormREST:
+			add("Content-Encoding", "identity")
+		case FormConnectStream:
+			add("Connect-Content-Encoding", "identity")
+		case FormGRPC, FormGRPCWeb:
+			add("Grpc-Encoding", "identity")
+		}
+	}
 	enc.Header = append(enc.Header, c.Headers...)
 	enc.finish(sc)
 	return enc, nil
